@@ -330,6 +330,13 @@ def resync(chk, cls, getter, own):
             continue
         br = [e for e in o.path.events if e[0] == "branch"]
         if len(br) != 1 or br[0][1][0] != "cmp":
+            # a resync decision that also depends on remembered state is known-bad: it must be a function of the own
+            # record, the target's CURRENT demand and the granularity alone
+            allowed = {own[2] if own else "_demand", "granularity", "target"}
+            foreign = sorted({x[2] for e in br for x in subterms(e[1]) if x[0] == "attr" and x[1] == SELF and x[2] not in allowed})
+            if foreign:
+                chk.bad(rule, name, "whether the read-back is resynchronised depends on remembered state (self.%s) besides the own record, the target's current demand and the granularity: a change of the target that returns to the remembered value -- or one made while the memory was not refreshed -- is never noticed, and the stale value is read back and written over it" % ", self.".join(foreign), node=getter.node, stmt="resync-remembered-state %s" % ",".join(foreign))
+                return
             chk.undecided(rule, name, "getter guard not recognised", node=getter.node)
             return
         _c, op, l, r = br[0][1]
